@@ -228,12 +228,18 @@ class Interp:
         fields = {"args": tuple(e.args)}
         for k, v in getattr(e, "__dict__", {}).items():
             fields[k] = v
+        self.ctx.raise_line = self.top_line()
         raise RaiseEx(SObj(type(e), fields))
 
     def raise_exc(self, cls, *args):
         if self.ctx.pure:
             raise Unsupported(f"exception {cls.__name__} inside pure expression")
+        self.ctx.raise_line = self.top_line()
         raise RaiseEx(self.make_exc(cls, *args))
+
+    def top_line(self):
+        """line (in the function under contract) of the statement being executed"""
+        return getattr(self.ctx, "top_stmt_line", None)
 
     def require(self, cond, cls, *args):
         """raise point: the exception is raised on the paths where `cond` is false (no-op in pure mode,
@@ -406,6 +412,12 @@ class Interp:
             return self.native(fn, *args, **kwargs)
         if isinstance(fn, type):
             return self.instantiate(fn, args, kwargs)
+        if isinstance(fn, (types.WrapperDescriptorType, types.MethodDescriptorType)) and args and isinstance(args[0], SObj):
+            if fn.__name__ == "__init__":
+                if issubclass(args[0].cls, BaseException):
+                    args[0].fields["args"] = tuple(args[1:])
+                return None
+            raise Unsupported(f"builtin method {fn.__qualname__} on an interpreted object")
         if isinstance(fn, SObj):
             m = self.class_lookup(fn.cls, "__call__")
             if m is not None:
@@ -575,6 +587,8 @@ class Interp:
             self.exec(s, frame)
 
     def exec(self, node, frame):
+        if frame.is_top:
+            self.ctx.top_stmt_line = node.lineno
         m = getattr(self, "x_" + type(node).__name__, None)
         if m is None:
             raise Unsupported(f"statement {type(node).__name__} at line {getattr(node, 'lineno', '?')}")
@@ -707,7 +721,10 @@ class Interp:
         return items
 
     def x_Return(self, node, frame):
-        raise ReturnEx(self.eval(node.value, frame) if node.value is not None else None)
+        v = self.eval(node.value, frame) if node.value is not None else None
+        if frame.is_top:
+            self.ctx.exit_line = node.lineno
+        raise ReturnEx(v)
 
     def x_Break(self, node, frame):
         raise BreakEx()
@@ -765,6 +782,7 @@ class Interp:
         if node.cause is not None:
             cause = self.eval(node.cause, frame)
             e.fields["__cause__"] = cause
+        self.ctx.raise_line = self.top_line()
         raise RaiseEx(e, cause)
 
     def exc_matches(self, exc, spec):
